@@ -257,6 +257,17 @@ class Executor:
         if n <= 0:
             raise Infeasible()
         k = len(self.trace)
+        if k < len(self.prefix) and self.env.get('native') and \
+                (len(self.prefix[k]) != 3 or self.prefix[k][1] != n or self.prefix[k][2] != tag):
+            # native replay: the real build replaces the MIR execution, so the decisions the model run took
+            # *inside* the operator are not taken again; skip to the next recorded decision of this kind
+            j = k
+            while j < len(self.prefix) and not (len(self.prefix[j]) == 3 and self.prefix[j][1] == n and self.prefix[j][2] == tag):
+                j += 1
+            if j == len(self.prefix):
+                raise BoundExceeded('native replay: no recorded decision %r left after position %d' % (tag, k))
+            self.trace.extend(list(e) for e in self.prefix[k:j])
+            k = j
         if k < len(self.prefix):
             ch = self.prefix[k][0]
             if self.prefix[k][1] != n or len(self.prefix[k]) != 3:
@@ -275,6 +286,17 @@ class Executor:
         if isinstance(cond, bool):
             return cond
         k = len(self.trace)
+        if self.env.get('native') and (k >= len(self.prefix) or len(self.prefix[k]) != 4 or self.prefix[k][2] != tag):
+            # native replay, decision not aligned with the recorded run (see choose): the inputs are pinned to the
+            # witness, so the condition is decided by the path condition itself
+            t = self._check(cond)
+            f = self._check(z3.Not(cond))
+            if not t and not f:
+                raise Infeasible()
+            val = t
+            if t and f:
+                self.solver.add(cond)
+            return val
         if k < len(self.prefix):
             if len(self.prefix[k]) != 4:
                 raise BoundExceeded('non-deterministic replay at decision %d (%s)' % (k, tag))
